@@ -3,8 +3,10 @@ package props
 import (
 	"fmt"
 	"go/ast"
+	"go/constant"
 	"go/token"
 	"go/types"
+	"regexp/syntax"
 	"sort"
 	"strings"
 
@@ -133,13 +135,15 @@ func runC16(c *core.Ctx) {
 	c.Rule("R2", "rejection sampling against the complete taken set; only the filtered slice is returned; sorted result", 8)
 	c.Rule("R3", "partition tokens come from the spread-minimising generator (id, zone 0, nothing taken)", 1)
 	c.Rule("R4", "token counter and appended tokens agree on every path of the placement loop", 1)
-	c.Rule("R5", "the zone index is the zone's position in the sorted zone list, whatever order the zones are configured in", 1)
+	c.Rule("R5", "the zone index is the zone's position in the sorted zone list, whatever order the zones are configured in; an unknown zone is refused", 2)
+	c.Rule("R6", "the instance index is the trailing number of the instance id: anchored pattern ending in the digits group, whose submatch is what is parsed", 2)
 	pkg := c.Prog.Pkg("ring")
 	if pkg == nil {
 		c.Miss("R1", "pkg=ring", "not loaded")
 		return
 	}
 	c16ZoneIndex(c, pkg)
+	c16Identity(c, pkg)
 	root := an.FindFunc(pkg, "SpreadMinimizingTokenGenerator.GenerateTokens")
 	if root == nil {
 		c.Miss("R1", "func=SpreadMinimizingTokenGenerator.GenerateTokens", "not found")
@@ -525,4 +529,92 @@ func c16ZoneIndex(c *core.Ctx, pkg *packages.Package) {
 	}
 	c.Check(ok && ex.May[1] && strings.HasPrefix(zid, "findZoneID(") && strings.HasSuffix(zid, "#0"), "R5", "func=NewSpreadMinimizingTokenGenerator", finds[0].Expr.Pos(),
 		fmt.Sprintf("findZoneID searches %s, which is sorted in place on every path where it is not already sorted (IsSorted tested on it: %v); the generator is built with that index (%s): %d paths", zobj.Name(), checked, zid, ex.Paths), ex.Paths)
+}
+
+// c16Identity (R5, R6): the generator is a function of (instance index, zone index) only if the two parsers
+// are exact. findZoneID answers the position of an element equal to the zone (slices.Index, negative ⇒
+// error). parseInstanceID takes the number from the last capture group of a pattern that is anchored at
+// both ends and ends in that digits group, so nothing after the number can be mistaken for it.
+func c16Identity(c *core.Ctx, pkg *packages.Package) {
+	if fn := an.FindFunc(pkg, "findZoneID"); fn != nil {
+		c.Analysed(fn.String())
+		g := fn.Graph()
+		var succ []*ast.ReturnStmt
+		for _, b := range g.Blocks {
+			if r := an.ReturnOf(b); r != nil && len(r.Results) == 2 && fn.Canon(r.Results[1]) == "nil" {
+				succ = append(succ, r)
+			}
+		}
+		if len(succ) != 1 {
+			c.Undec("R5", "func=findZoneID", fn.Pos(), fmt.Sprintf("expected one successful return, found %d", len(succ)))
+		} else {
+			v := fn.Canon(succ[0].Results[0])
+			t := an.Table{G: g, From: g.EntryLoc(), FreeUnknown: true, MayOnly: true, Atoms: []an.Atom{{Name: "idx", Values: []string{"lt", "eq", "gt"}}},
+				Binder: &an.Binder{Fn: fn, Cmp: map[string]string{"slices.Index(p1, p0)|0": "idx"}}, Targets: []an.Loc{g.Locate(succ[0])},
+				Want: func(r an.Row, _ int) an.Tri {
+					if r["idx"] == "lt" {
+						return an.F
+					}
+					return an.T
+				}}
+			res := t.Run()
+			c.Check(v == "slices.Index(p1, p0)" && res.OK(), "R5", "func=findZoneID", fn.Pos(), "answers slices.Index(zones, zone) (the position of an equal element), and an error when there is none: "+v+"; "+res.Summary(), res.Rows)
+		}
+	} else {
+		c.Miss("R5", "func=findZoneID", "not found")
+	}
+	// the pattern
+	var pat string
+	var patPos token.Pos
+	for _, f := range pkg.Syntax {
+		ast.Inspect(f, func(n ast.Node) bool {
+			vs, ok := n.(*ast.ValueSpec)
+			if !ok {
+				return true
+			}
+			for i, name := range vs.Names {
+				if name.Name == "instanceIDRegex" && i < len(vs.Values) {
+					if call, ok := vs.Values[i].(*ast.CallExpr); ok && len(call.Args) == 1 {
+						if tv, ok := pkg.TypesInfo.Types[call.Args[0]]; ok && tv.Value != nil {
+							pat = constant.StringVal(tv.Value)
+							patPos = call.Pos()
+						}
+					}
+				}
+			}
+			return true
+		})
+	}
+	if pat == "" {
+		c.Miss("R6", "var=instanceIDRegex", "pattern not found")
+		return
+	}
+	re, err := syntax.Parse(pat, syntax.Perl)
+	okPat, groups := false, 0
+	if err == nil {
+		re = re.Simplify()
+		groups = re.MaxCap()
+		if re.Op == syntax.OpConcat && len(re.Sub) >= 3 && re.Sub[0].Op == syntax.OpBeginText && re.Sub[len(re.Sub)-1].Op == syntax.OpEndText {
+			last := re.Sub[len(re.Sub)-2]
+			if last.Op == syntax.OpCapture && last.Cap == groups && len(last.Sub) == 1 {
+				d := last.Sub[0]
+				if d.Op == syntax.OpPlus && len(d.Sub) == 1 && d.Sub[0].Op == syntax.OpCharClass && string(d.Sub[0].Rune) == "09" {
+					okPat = true
+				}
+			}
+		}
+	}
+	c.Check(okPat, "R6", "var=instanceIDRegex", patPos, fmt.Sprintf("pattern %q is anchored at both ends and its last element is the final capture group, one or more digits", pat), 1)
+	if fn := an.FindFunc(pkg, "parseInstanceID"); fn != nil {
+		c.Analysed(fn.String())
+		okArg := false
+		detail := ""
+		for _, call := range fn.CallsTo(false, "strconv", "Atoi") {
+			detail = fn.Canon(call.Expr.Args[0])
+			okArg = strings.TrimPrefix(detail, "pkg.") == fmt.Sprintf("instanceIDRegex.FindStringSubmatch(p0)[%d]", groups)
+		}
+		c.Check(okArg, "R6", "func=parseInstanceID", fn.Pos(), fmt.Sprintf("the index is parsed from the last submatch (group %d) of the match on the whole id: %s", groups, detail), 1)
+	} else {
+		c.Miss("R6", "func=parseInstanceID", "not found")
+	}
 }
